@@ -14,6 +14,9 @@ depend on what was minified earlier in the same process, nor on other threads):
   caller-object  an attribute store into an option object (it belongs to the caller and is reused between calls)
   set-order  iteration (for / comprehension / list() / tuple() / join) directly over a set display, set comprehension or set(...) call:
              the order of a set of strings depends on the hash seed
+  nondeterministic      a call of random.* / time.* / datetime.* / uuid.* / secrets.* / os.getpid / os.urandom / id(), or of hash() outside a
+             __hash__ method (string hashes depend on the hash seed)
+  nondeterministic-use  a reference, anywhere in the package, to a function that contains such a call
   process    a call or store that changes interpreter-wide state (sys.setrecursionlimit, sys.path / sys.modules / os.environ
              mutation, os.chdir, random.seed, locale.setlocale, warnings.filterwarnings, builtins assignment)
 
@@ -32,6 +35,7 @@ CONTAINERS = {'list', 'dict', 'set', 'bytearray', 'defaultdict', 'OrderedDict', 
               'WeakKeyDictionary', 'WeakValueDictionary', 'weakref.WeakKeyDictionary', 'weakref.WeakValueDictionary'}
 IMMUTABLE_MAKERS = {'re.compile', 'frozenset', 'tuple', 'str', 'int', 'float', 'bytes', 'bool', 'object', 'namedtuple', 'collections.namedtuple', 'len', 'dir', 'sorted', 'range',
                     'os.path.join', 'os.path.dirname', 'os.path.abspath', 'type', 'getattr', 'hasattr', 'isinstance', 'logging.getLogger', 'TypeVar', 'typing.TypeVar'}
+NONDET_PREFIX = ('random.', 'time.', 'datetime.', 'uuid.', 'secrets.', 'os.urandom', 'os.getpid', 'os.times', 'threading.get_ident', 'tempfile.')
 PROCESS_CALLS = {'sys.setrecursionlimit', 'sys.setswitchinterval', 'sys.set_int_max_str_digits', 'os.chdir', 'os.putenv', 'os.unsetenv', 'os.umask', 'random.seed', 'locale.setlocale',
                  'warnings.filterwarnings', 'warnings.simplefilter', 'sys.settrace', 'sys.setprofile', 'gc.disable', 'gc.enable', 'sys.path.append', 'sys.path.insert', 'sys.path.extend',
                  'os.environ.update', 'os.environ.setdefault', 'os.environ.pop', 'os.environ.clear', 'sys.modules.pop', 'sys.modules.update', 'sys.modules.setdefault', 'setattr(builtins)'}
@@ -156,6 +160,8 @@ def sites_of(path, rel):
                     out.append((rel, scope, 'set-order', dotted(it)[:60]))
             if isinstance(n, ast.Call):
                 d = dotted(n.func)
+                if d.startswith(NONDET_PREFIX) or d == 'id' or (d == 'hash' and fn.name != '__hash__') or (d == 'next' and n.args and isinstance(n.args[0], ast.Name) and n.args[0].id in module_obj and n.args[0].id not in local_names):
+                    out.append((rel, scope, 'shared' if d == 'next' else 'nondeterministic', d + ('(%s)' % n.args[0].id if d == 'next' else '')))
                 if d in PROCESS_CALLS:
                     out.append((rel, scope, 'process', d))
                 if d == 'setattr' and n.args and dotted(n.args[0]) in ('builtins', '__builtins__', 'sys', 'os'):
@@ -210,7 +216,25 @@ def translate(repo, outdir):
                     sites += sites_of(p, os.path.relpath(p, root))
                 except SyntaxError as e:
                     raise Untranslatable('%s does not parse: %s' % (p, e))
-    sites.sort()
+    # references to the functions that contain a nondeterministic call
+    nondet_funcs = {sc.split('.')[-1]: (rel, sc) for rel, sc, kind, _w in sites if kind == 'nondeterministic'}
+    if nondet_funcs:
+        for d, _ds, fs in sorted(os.walk(root)):
+            for f in sorted(fs):
+                if not f.endswith('.py'):
+                    continue
+                p = os.path.join(d, f)
+                rel = os.path.relpath(p, root)
+                tree = ast.parse(open(p).read())
+                for n in ast.walk(tree):
+                    nm = n.id if isinstance(n, ast.Name) else n.attr if isinstance(n, ast.Attribute) else None
+                    if nm in nondet_funcs:
+                        sites.append((rel, '<reference>', 'nondeterministic-use', nm))
+                    if isinstance(n, (ast.ImportFrom, ast.Import)):
+                        for a in n.names:
+                            if a.name.split('.')[-1] in nondet_funcs:
+                                sites.append((rel, '<import>', 'nondeterministic-use', a.name))
+    sites = sorted(set(sites))
     o = ['(* GENERATED on every run by /verif/translator/statesites.py from every .py under /repo/src/python_minifier. Do not edit. *)',
          'From Coq Require Import String List.', 'Import ListNotations.', '#[local] Open Scope string_scope.',
          '(* (file, enclosing function, kind, what) : state that outlives one call of minify() *)',
